@@ -520,7 +520,9 @@ func (u *Unit) evalInner(st *State, env *SpecEnv, e *Spec) (Val, error) {
 			return boolVal(fmt.Sprintf("(forall ((%s %s)) %s)", bv, sort, sImp(guard, body))), nil
 		}
 		ex := fmt.Sprintf("(exists ((%s %s)) %s)", bv, sort, sAnd(guard, body))
-		if e.B != nil && sort == "Int" && !strings.Contains(ex, "qi_") {
+		// hints only on goals and only for the outermost existential: the text of an existential
+		// is then the same wherever it is evaluated (assumed or required)
+		if u.goalEval && u.qNest == 0 && e.B != nil && sort == "Int" && !strings.Contains(ex, "qi_") {
 			// witness hints: (exists x. P) is equivalent to (exists x. P) or P[t1] or ... ; the
 			// instances at the index terms met on the path spare the solver the search
 			ts := st.ixterms
@@ -1691,7 +1693,9 @@ func (u *Unit) unfoldEnv(st *State, env *SpecEnv, uf *SpecFunc, call *Spec) (*Sp
 // checked for that constant - a quantifier-free goal instead of one that depends on the
 // solver's trigger selection.
 func (u *Unit) obligeClause(st *State, env *SpecEnv, e *Spec, kind, label string, pos token.Pos, human string, props []string, where string) error {
+	u.goalEval = true
 	full, err := u.evalBool(st, env, e)
+	u.goalEval = false
 	if err != nil {
 		return err
 	}
@@ -1764,7 +1768,9 @@ func (u *Unit) obligeClause(st *State, env *SpecEnv, e *Spec, kind, label string
 					return err
 				}
 			default:
+				u.goalEval = true
 				t, err := u.evalBool(cs, cenv, cj)
+				u.goalEval = false
 				if err != nil {
 					return err
 				}
@@ -1784,7 +1790,11 @@ func (u *Unit) obligeClause(st *State, env *SpecEnv, e *Spec, kind, label string
 		t := sAnd(plain...)
 		u.recordObl(st, kind, label, t, pos, human, props, where, t == "true")
 	}
-	st.assume(full)
+	if plainFull, err := u.evalBool(st, env, e); err == nil {
+		st.assume(plainFull)
+	} else {
+		st.assume(full)
+	}
 	u.harvest(st, env, e, "true", 0)
 	return nil
 }
